@@ -38,7 +38,7 @@ pub fn generate(a: &Args) {
             let cls = i + k;
             let llrs = llr_vector(&mut rng, n, cls);
             let limit = limits[(i / 3 + k) % limits.len()];
-            decode_event(&mut out, name, &rows, n, &llrs, limit, cls % 12);
+            decode_event(&mut out, name, &rows, n, &llrs, limit, cls % 13);
         }
     }
     if is_thorough(a) {
